@@ -287,7 +287,15 @@ def run(tier, seed):
                        "$checkForDeadlock stays true and $exportedFunctions stays 0 (no Go function handed to JavaScript)",
                        "a timer callback closing a channel with >= 2 blocked goroutines (nested $runScheduled inside $close) is not modelled; the event is ignored on both sides",
                        "panics are observed and the goroutine continues (as if recovered by a deferred function)"]
+    import time
+    t0 = time.time()
+    timing = chk.extra.setdefault("phase_seconds", {})
+
+    def phase(name):
+        timing[name] = round(time.time() - t0, 1)
+        C.log("[C03] %s done at %.1fs" % (name, time.time() - t0))
     chk.proof = C.check_proofs("C03", THEOREMS, tier)
+    phase("proofs")
     if not chk.proof.build_ok:
         return chk.finish()
 
@@ -295,18 +303,20 @@ def run(tier, seed):
     # 1. witnesses of the recorded defects, replayed against the real code
     tie_scripts(chk, "prelude-chan-witness", [WITNESS_SELECT_SEND.split("|"), WITNESS_CLOSE_NIL.split("|")])
     # 2. random scripts
-    n = 5000 if thorough else 600
-    scripts = gen_random(rng, n, 60 if thorough else 45, maxg=rng.choice([3, 4, 6, 8]), maxch=4)
+    n = 2500 if thorough else 400
+    scripts = gen_random(rng, n, 60 if thorough else 40, maxg=rng.choice([3, 4, 6, 8]), maxch=4)
     scripts += gen_random(rng, n // 4, 40, maxg=3, maxch=2)
+    phase("random-generation")
     tie_scripts(chk, "prelude-chan-random", scripts)
+    phase("random-tie")
     chk.extra["random_scripts"] = len(scripts)
     chk.extra["random_events"] = sum(len(s) for s in scripts)
     # 3. exhaustive small scripts
     ex = []
     exinfo = []
     if thorough:
-        plan = [(2, [0], 9, 30000), (2, [1], 9, 30000), (2, [2], 8, 20000), (3, [0], 8, 30000),
-                (2, [0, 1], 7, 30000), (3, [0, 2], 6, 20000), (3, [1, 0], 6, 20000)]
+        plan = [(2, [0], 9, 20000), (2, [1], 9, 20000), (2, [2], 8, 15000), (3, [0], 8, 20000),
+                (2, [0, 1], 7, 20000), (3, [0, 2], 6, 15000), (3, [1, 0], 6, 15000)]
     else:
         plan = [(2, [0], 6, 2500), (2, [1], 6, 2500), (3, [0, 1], 5, 2000)]
     for ngor, caps, depth, limit in plan:
@@ -314,7 +324,9 @@ def run(tier, seed):
         ex += e
         exinfo.append({"goroutines": ngor, "caps": caps, "depth": depth, "exhaustive_to_depth": fd, "scripts": len(e)})
     chk.extra["exhaustive_plan"] = exinfo
+    phase("exhaustive-generation")
     tie_scripts(chk, "prelude-chan-exhaustive", ex)
+    phase("exhaustive-tie")
     chk.extra["exhaustive_scripts"] = len(ex)
     chk.extra["exhaustive"] = False
     chk.extra["exhaustive_subspace"] = ("every event sequence (breadth-first, no state merging, up to the listed depth/limit) of 2-3 goroutines over "
@@ -322,6 +334,7 @@ def run(tier, seed):
                                         "random resolutions)/exit, scheduler steps forced")
     # 4. program level
     run_programs(chk, tier, rng)
+    phase("programs")
     return chk.finish()
 
 
@@ -627,7 +640,7 @@ def run_programs(chk, tier, rng):
     thorough = tier == "thorough"
     jobs = []
     # (a) scripted programs: GopherJS under Node vs the model's prediction
-    Ps = [gen_scripted_program(rng, "s%d" % i) for i in range(400 if thorough else 60)]
+    Ps = [gen_scripted_program(rng, "s%d" % i) for i in range(250 if thorough else 40)]
     pred = model_predict(Ps)
     keep = []
     for P, (trace, ending, script) in zip(Ps, pred):
@@ -638,7 +651,7 @@ def run_programs(chk, tier, rng):
         jobs.append({"id": P["id"], "files": {"main.go": scripted_source(P)}, "variants": ["plain"], "native": False, "timeout": 20})
     # (b) deterministic-by-construction programs: GopherJS vs native Go
     det = []
-    for i in range(120 if thorough else 24):
+    for i in range(80 if thorough else 16):
         name, src = rng.choice([tmpl_pipeline, tmpl_fanin, tmpl_deadlock, tmpl_close])(rng)
         det.append((name, src))
         jobs.append({"id": "d%d" % i, "files": {"main.go": src}, "variants": ["plain"], "native": True, "timeout": 20})
